@@ -38,6 +38,8 @@ pub enum Pat {
     /// only negative values (a non-negative integer literal is a u64 literal)
     I64(i64),
     F64(f64),
+    /// the literal `NaN`: matches any NaN `f64` value (and nothing else)
+    NaN,
     /// not a literal: compared with the `Debug` output (anchored; metacharacter-free)
     Text(String),
 }
@@ -142,6 +144,7 @@ impl Dir {
                 Some((Pat::U64(b), _)) => k.push_str(&format!("=u{b}")),
                 Some((Pat::I64(b), _)) => k.push_str(&format!("=i{b}")),
                 Some((Pat::F64(b), _)) => k.push_str(&format!("=f{:x}", b.to_bits())),
+                Some((Pat::NaN, _)) => k.push_str("=fNaN"),
                 Some((Pat::Text(b), _)) => k.push_str(&format!("=t{b}")),
             }
             k.push(',');
@@ -225,6 +228,8 @@ pub fn pat_matches(p: &Pat, v: &Val, regex: bool, q: Quirks) -> Tri {
             Some(t) if t == n.to_string() => Tri::Open,
             _ => Tri::No,
         },
+        (Pat::NaN, Val::F64(x)) => Tri::of(x.is_nan()),
+        (Pat::NaN, _) => Tri::No,
         (Pat::F64(n), Val::F64(x)) => {
             if n == x {
                 Tri::Yes
@@ -538,6 +543,9 @@ pub fn gen_pat(rng: &mut Rng, exotic_floats: bool) -> (Pat, String) {
                 c.push(("1e3", 1000.0));
                 c.push(("-7.0", -7.0));
             }
+            if rng.chance(1, 6) {
+                return (Pat::NaN, "NaN".to_string());
+            }
             let (t, v) = *rng.pick(&c);
             (Pat::F64(v), t.to_string())
         }
@@ -652,6 +660,28 @@ pub fn gen_set(rng: &mut Rng, o: GenOpts) -> Vec<Dir> {
             if d.level.is_some() || rng.bool() {
                 d.level = Some(lvl);
                 d.level_text = level_text(rng, lvl);
+            }
+            // half of the copies of a directive with a value pattern differ from the original
+            // ONLY in that pattern (another value or another kind of literal): two distinct
+            // directives that an ordering / equality of matchers must keep apart
+            let with_pat: Vec<usize> = (0..d.fields.len()).filter(|&i| d.fields[i].pat.is_some()).collect();
+            if !with_pat.is_empty() && rng.bool() {
+                let i = *rng.pick(&with_pat);
+                let old = d.fields[i].pat.clone();
+                // (a float literal and `NaN` are the closest neighbours among the kinds)
+                match &old {
+                    Some((Pat::F64(_), _)) if rng.bool() => d.fields[i].pat = Some((Pat::NaN, "NaN".to_string())),
+                    Some((Pat::NaN, _)) if rng.bool() => d.fields[i].pat = Some((Pat::F64(0.5), "0.5".to_string())),
+                    _ => {
+                        for _ in 0..8 {
+                            let p = gen_pat(rng, false);
+                            if Some(&p) != old.as_ref() {
+                                d.fields[i].pat = Some(p);
+                                break;
+                            }
+                        }
+                    }
+                }
             }
             v.push(d);
         } else {
